@@ -61,6 +61,8 @@ func newPool() *pool {
 	return &pool{b: b, ps: ps}
 }
 
+var unusedImport = regexp.MustCompile(`^import "[^"]*" not used$`)
+
 type outcome struct {
 	class string // accepted | rejected
 	viol  string // violation clause, "" if none
@@ -291,6 +293,35 @@ func run(r *vk.Runner) {
 					return
 				}
 			}
+			// the editor's entry point: linting each source file of the accepted package on a fresh
+			// package set must not fail either
+			for _, f := range c.P.Files {
+				if f.IsProto || f.IsDep || f.ListedOnly {
+					continue
+				}
+				lps, err := b.NewPackageSet()
+				if err != nil {
+					panic(err)
+				}
+				ews, lerr := protobuild.LintFile(ctx, lps, f.Path(), b.Files[f.Path()])
+				t.Step()
+				if lerr != nil {
+					t.Violation("valid-program-fails-lint|"+c.Family+"|"+vk.ErrTail(lerr), fmt.Sprintf("CompilePackage accepts the package but LintFile(%s) fails: %v\n%s", f.Path(), lerr, src), src, nil, lerr.Error())
+					return
+				}
+				if ews != nil {
+					for _, e := range ews.Errors {
+						// LintFile returns errors and warnings in one list; the only warning the linker
+						// issues is about unused imports, which the property does not speak about
+						if unusedImport.MatchString(e.Err.Error()) {
+							t.Class("accepted-with-unused-import-warning")
+							continue
+						}
+						t.Violation("valid-program-lint-diagnostics|"+c.Family+"|"+vk.ErrTail(e.Err), fmt.Sprintf("CompilePackage accepts the package but LintFile(%s) reports: %v\n%s", f.Path(), e.Err, src), src, nil, e.Err.Error())
+						return
+					}
+				}
+			}
 			t.Class("accepted")
 		})
 	}
@@ -401,7 +432,9 @@ func run(r *vk.Runner) {
 func chunks(s string) []string {
 	var out []string
 	rs := []rune(s)
-	isID := func(r rune) bool { return r == '_' || r == '.' || r >= '0' && r <= '9' || r >= 'a' && r <= 'z' || r >= 'A' && r <= 'Z' }
+	isID := func(r rune) bool {
+		return r == '_' || r == '.' || r >= '0' && r <= '9' || r >= 'a' && r <= 'z' || r >= 'A' && r <= 'Z'
+	}
 	for i := 0; i < len(rs); {
 		j := i + 1
 		switch {
